@@ -98,6 +98,9 @@ static std::vector<Special> specials() {
         {"double-slash", "TUNING\n 1 10 /\n /\n 12 1 50 /\n"},
         {"double-record", "VFPINJ\n 4 2000 WAT THP METRIC BHP /\n 1 100 /\n 10 50 /\n 1 100 120 /\n 2 110 130 /\n"},
         {"table-collection", "PVTO\n 10 20 1.1 1.5 60 1.08 1.7 /\n 40 80 1.25 1.1 150 1.22 1.2 /\n/\n"},
+        {"table-collection-2-regions", "TABDIMS\n 1 2 /\nPVTO\n 10 20 1.1 1.5 60 1.08 1.7 /\n 40 80 1.25 1.1 150 1.22 1.2 /\n/\n 12 22 1.1 1.5 62 1.08 1.7 /\n 42 82 1.25 1.1 152 1.22 1.2 /\n/\n"},
+        {"table-collection-pvtg-2-regions", "TABDIMS\n 1 2 /\nPVTG\n 20 0.0001 0.05 0.012 0 0.051 0.0121 /\n 80 0.0002 0.012 0.015 0 0.0125 0.0151 /\n/\n 22 0.0001 0.05 0.012 0 0.051 0.0121 /\n 82 0.0002 0.012 0.015 0 0.0125 0.0151 /\n/\n"},
+        {"tables-2-regions", "TABDIMS\n 2 1 /\nSWOF\n 0.2 0 1 0\n 1 1 0 0 /\n 0.25 0 1 0\n 1 1 0 0 /\n"},
         {"table-defaults", "SWOF\n 0.2 0 1 0\n 0.5 1* 1* 0\n 1 1 0 0 /\n"},
         {"dates", "DATES\n 1 JAN 2020 12:30:15 /\n 2 'FEB' 2021 /\n/\n"},
         {"start", "START\n 1 'JAN' 2020 /\n"},
@@ -168,6 +171,31 @@ int main(int argc, char** argv) {
             for (int i = 0; i < len; ++i) { if (mode == 1 && i % 5 == 2) t += " 3*" + std::to_string(i % 2 ? 0.125 : 1); else if (mode == 2 && i % 4 == 1 && std::string(kw) == "SWOF") t += " 1*"; else t += " " + (std::string(kw) == "ACTNUM" ? std::to_string(i % 2) : std::to_string(0.001 * (i + 1))); if (i % 7 == 6) t += "\n"; }
             t += " /\n";
             check_deck(t, std::string(kw) + " length " + std::to_string(len) + " mode " + std::to_string(mode), std::string("data-array:") + kw, "X " + [&] { std::string e; for (char c : t) { if (c == '\n') e += "\\n"; else e += c; } return e; }());
+        }
+    }
+    // ordered pairs of keyword shapes in ONE deck: printer state must not leak from one keyword into the next
+    {
+        const std::vector<std::pair<std::string, std::string>> shapes = {
+            {"EQUIL-trailing-defaults", "EQUIL\n 2000 200 /\n"}, {"WELSPECS-embedded-defaults", "WELSPECS\n 'P1' 'G1' 1 1 1* OIL 3* NO /\n/\n"},
+            {"TITLE", "TITLE\n My little deck\n"}, {"PORO-trailing-defaults", "PORO\n 0.1 0.2 2* /\n"}, {"SWOF", "SWOF\n 0.2 0 1 0\n 1 1 0 0 /\n"},
+            {"PVTO-2-regions", "PVTO\n 10 20 1.1 1.5 60 1.08 1.7 /\n/\n 12 22 1.1 1.5 62 1.08 1.7 /\n/\n"}, {"RPTRST", "RPTRST\n BASIC=2 /\n"},
+            {"UDQ", "UDQ\n DEFINE WUX WOPR * 2 /\n/\n"}, {"TUNING", "TUNING\n 1 10 /\n /\n 12 1 50 /\n"}, {"GRUPTREE", "GRUPTREE\n A B /\n/\n"},
+            {"START", "START\n 1 'JAN' 2020 /\n"}, {"COMPDAT-defaults", "COMPDAT\n 'P1' 2* 1 2 OPEN 2* 0.2 /\n/\n"}};
+        auto esc = [](const std::string& t) { std::string e; for (char c : t) { if (c == '\n') e += "\\n"; else e += c; } return e; };
+        // a shape that already fails on its own (after the TABDIMS prefix) is reported once under its own key
+        // and left out of the pairs, so that one defect does not produce a key per partner
+        std::vector<char> alone_ok(shapes.size(), 1);
+        for (size_t a = 0; a < shapes.size(); ++a) {
+            const long before = run.counters["violations_total"];
+            std::string t = "TABDIMS\n 1 2 /\n" + shapes[a].second;
+            check_deck(t, "shape " + shapes[a].first + " after TABDIMS", "shape:" + shapes[a].first, "X " + esc(t));
+            if (run.counters["violations_total"] != before) alone_ok[a] = 0;
+        }
+        for (size_t a = 0; a < shapes.size(); ++a) for (size_t b = 0; b < shapes.size(); ++b) {
+            if (!run.mine()) continue;
+            if (!alone_ok[a] || !alone_ok[b]) { run.count("pairs_skipped_member_fails_alone"); continue; }
+            std::string t = "TABDIMS\n 1 2 /\n" + shapes[a].second + shapes[b].second;
+            check_deck(t, "pair " + shapes[a].first + " + " + shapes[b].first, "pair:" + shapes[a].first + "+" + shapes[b].first, "X " + esc(t));
         }
     }
     // shipped decks
